@@ -307,8 +307,64 @@ NC = {"quick": 500, "thorough": 8000}
 NF = {"quick": 150, "thorough": 2500}
 
 
+# ------------------------------------------------------------------------------------ softmax family over the whole float range
+@st.composite
+def softmax_cases(draw):
+    nd = draw(st.integers(1, 3))
+    shape = [draw(st.integers(1, 4)) for _ in range(nd)]
+    n = int(np.prod(shape))
+    scale = draw(st.sampled_from([1, 1, 30, 120, 800, 5000]))  # spreads far beyond where exp() under/overflows
+    vals = draw(st.lists(st.integers(-8, 8), min_size=n, max_size=n))
+    axk = draw(st.sampled_from(["none", "int", "int", "tuple", "default"]))
+    if axk == "int":
+        axis = draw(st.integers(-nd, nd - 1))
+    elif axk == "tuple":
+        axis = sorted(set(draw(st.lists(st.integers(0, nd - 1), min_size=1, max_size=nd))))
+    else:
+        axis = None
+    return {"fn": draw(st.sampled_from(["softmax", "logsoftmax"])), "shape": shape, "vals": vals, "scale": scale,
+            "dtype": draw(st.sampled_from(["float64", "float64", "float32"])), "axis_kind": axk, "axis": axis,
+            "as_tensor": draw(st.booleans())}
+
+
+def check_softmax(case):
+    """documented equations softmax = exp(x)/sum(exp(x)), logsoftmax = log(softmax(x)), evaluated in float64 in their
+    mathematically equal shifted form (x - max), which is finite wherever the documented value is"""
+    import mygrad as mg
+
+    reset_mygrad()
+    x = (np.array(case["vals"], dtype=np.float64).reshape(case["shape"]) * case["scale"] / 8.0).astype(case["dtype"])
+    kw = {}
+    if case["axis_kind"] != "default":
+        kw["axis"] = tuple(case["axis"]) if isinstance(case["axis"], list) else case["axis"]
+    arg = mg.tensor(x) if case["as_tensor"] else x
+    try:
+        with np.errstate(all="ignore"):
+            got = getattr(mg.nnet, case["fn"])(arg, **kw).data
+    except Exception as e:  # noqa: BLE001
+        return Mismatch("raised", f"{case['fn']}(shape {case['shape']}, axis={kw.get('axis', 'default')}): {fmt_exc(e)}")
+    ax = kw.get("axis", -1)
+    x64 = x.astype(np.float64)
+    sh = x64 - x64.max(axis=ax, keepdims=True)
+    lse = np.log(np.exp(sh).sum(axis=ax, keepdims=True))
+    want = sh - lse if case["fn"] == "logsoftmax" else np.exp(sh - lse)
+    if got.shape != want.shape:
+        return Mismatch("layer_shape", f"{case['fn']}: shape {got.shape} vs {want.shape}")
+    if got.dtype != x.dtype:
+        return Mismatch("layer_dtype", f"{case['fn']}: dtype {got.dtype} for {x.dtype} input")
+    eps = np.finfo(x.dtype).eps
+    tol = 64 * eps * (np.abs(want) + np.abs(x64).max() + 1.0) if case["fn"] == "logsoftmax" else 64 * eps * (want + 1e-30) + 4 * np.finfo(x.dtype).tiny
+    bad = ~(np.abs(got.astype(np.float64) - want) <= tol)
+    if bad.any():
+        i = int(np.argmax(bad))
+        return Mismatch("layer_value", f"{case['fn']}(dtype {x.dtype}, spread {float(np.ptp(x64)):.0f}): {got.ravel()[i]!r} where the "
+                                       f"documented formula gives {want.ravel()[i]!r}")
+    return None
+
+
 def shard_plan(tier):
-    return [f"swv{i}" for i in range(5)] + [f"cfg{i}" for i in range(4)] + [f"enum{i}" for i in range(4)] + [f"formula{i}" for i in range(3)]
+    return ([f"swv{i}" for i in range(5)] + [f"cfg{i}" for i in range(4)] + [f"enum{i}" for i in range(4)]
+            + [f"formula{i}" for i in range(3)] + ["softmax0"])
 
 
 def run_shard(shard, seed, tier):
@@ -353,6 +409,15 @@ def run_shard(shard, seed, tier):
                 viol.append({"check": "layer_config", "case": case, "mismatch": mm.to_json()})
                 break
         rec.extra["enumerated_configs"] = rec.evaluations
+    elif shard.startswith("softmax"):
+        def cc(case):
+            rec.note([case["fn"], case["shape"], case["scale"], case["dtype"], case["axis_kind"], case["axis"]],
+                     case["scale"] > 1 or case["axis_kind"] in ("none", "tuple") or case["dtype"] != "float64",
+                     ["formula_" + case["fn"], f"spread_scale_{case['scale']}", "axis_" + case["axis_kind"]], sample=case)
+            return check_softmax(case)
+
+        viol = drive(prop=PROPERTY, name="softmax_family", strategy=softmax_cases(), check_case=cc, rec=rec, seed=seed,
+                     max_examples=NF[tier] * 3)
     else:
         from vf.checks import c02_layers
 
@@ -371,6 +436,8 @@ def run_shard(shard, seed, tier):
 def replay(check, case):
     if check == "sliding_window_view":
         return check_swv(case)
+    if check == "softmax_family" or "fn" in case:
+        return check_softmax(case)
     if check == "layer_formula" or "prog" in case:
         return check_formula(case)
     return check_config(case)
